@@ -76,17 +76,42 @@ TB3_TRIAGE_KEY = "T3|lex_multichar_comments|NotImplementedError from raise NotIm
 
 
 def lexer_allowed_pairs(repo):
-    """The multi-character comment pairs lex_multichar_comments implements,
-    read from its ``allowed_pairs`` literal (AST)."""
+    """The multi-character comment pairs lex_multichar_comments implements: the literal table T of the
+    `<pair> not in T` test that guards its `raise NotImplementedError` (a local or a module constant)."""
     import ast
     fn = repo.function("lexer", "lex_multichar_comments")
+    parents = {}
     for n in ast.walk(fn):
-        if isinstance(n, ast.Assign) and isinstance(n.targets[0], ast.Name) and n.targets[0].id == "allowed_pairs":
-            try:
-                return tuple(ast.literal_eval(n.value))
-            except ValueError:
-                raise AnalysisError("lex_multichar_comments.allowed_pairs is not a literal")
-    raise AnalysisError("anchor vanished: lex_multichar_comments.allowed_pairs")
+        for c in ast.iter_child_nodes(n):
+            parents[c] = n
+    tables_ = []
+    for r in ast.walk(fn):
+        if isinstance(r, ast.Raise) and r.exc is not None and "NotImplementedError" in ast.unparse(r.exc):
+            p = parents.get(r)
+            while p is not None and not isinstance(p, ast.If):
+                p = parents.get(p)
+            if p is None:
+                continue
+            for c in ast.walk(p.test):
+                if isinstance(c, ast.Compare) and len(c.ops) == 1 and isinstance(c.ops[0], ast.NotIn):
+                    tables_.append(c.comparators[0])
+    if not tables_:
+        raise AnalysisError("anchor vanished: lex_multichar_comments.allowed_pairs")
+    t = tables_[0]
+    if isinstance(t, ast.Name):
+        val = None
+        for n in ast.walk(fn):
+            if isinstance(n, ast.Assign) and isinstance(n.targets[0], ast.Name) and n.targets[0].id == t.id:
+                val = n.value
+        if val is None:
+            val = repo.module_constant("lexer", t.id)
+        if val is None:
+            raise AnalysisError("anchor vanished: lex_multichar_comments.allowed_pairs")
+        t = val
+    try:
+        return tuple(ast.literal_eval(t))
+    except ValueError:
+        raise AnalysisError("lex_multichar_comments.allowed_pairs is not a literal")
 
 
 def tb3(repo):
